@@ -18,12 +18,6 @@ executions below are replayed on the implementation by the check (findings C07-1
 -/
 namespace CentrifugeVerif.SubProto
 
-theorem applyEff_log_prefix (s : State) (e : Eff) : s.log <+: (applyEff s e).log := by
-  cases e <;> simp
-
-theorem applyEffs_log_prefix (es : List Eff) (s : State) : s.log <+: (applyEffs s es).log := by
-  rw [log_applyEffs_eq]; exact List.prefix_append _ _
-
 /-- the broker call log only grows: an emitted join or leave is never retracted or reordered -/
 theorem log_only_grows (s s' : State) (l : Label) (hn : next s l = some s') : s.log <+: s'.log := by
   cases l with
